@@ -7,7 +7,7 @@ from xsdata.models.datatype import xml_duration_re
 
 
 def one(s):
-    m = xml_duration_re.match(s)
+    m = xml_duration_re.match(s.strip())  # XmlDuration strips before matching
     sec = m.groups()[6] if m else None
     ok = True
     if sec is not None:
